@@ -738,6 +738,32 @@ fn cfgs_for_streams() -> Vec<MsgCfg> {
     v
 }
 
+/// File sinks that refuse every write (`/dev/full`: opens, then fails with ENOSPC): the builder's
+/// file entry points must report the error, whatever part of the output was still buffered.
+#[derive(Clone, Debug, Hash, Serialize, Deserialize)]
+pub struct FullSinkCase {
+    pub cfg: MsgCfg,
+    pub n: usize,
+}
+
+fn run_full_sink(c: &FullSinkCase) -> Outcome {
+    use std::os::unix::fs::FileTypeExt;
+    let path = std::path::Path::new("/dev/full");
+    match std::fs::metadata(path) {
+        Ok(m) if m.file_type().is_char_device() => {}
+        _ => return Outcome::trivial("no /dev/full on this system"),
+    }
+    let payload = msg::payload(c.n, c.cfg.text);
+    match crate::engine::guarded(|| msg::build_file(&c.cfg, &payload, path, 7000 + c.n as u64)) {
+        Ok(Err(_)) => Outcome::ok("sink-error-reported"),
+        Ok(Ok(())) => Outcome::bad(
+            "C09:builder-file-sink:sink-error-swallowed",
+            format!("{} of a {}-octet payload onto a device that refuses every write returned Ok(())", if c.cfg.armor { "to_armored_file" } else { "to_file" }, c.n),
+        ),
+        Err((loc, m)) => Outcome::bad(format!("C09:builder-file-sink:panic@{}", crate::engine::loc_file(&loc)), format!("panic at {loc}: {m}")),
+    }
+}
+
 pub fn check(ctx: &Ctx) {
     let quick = ctx.tier == Tier::Quick;
     common::cert(KeyKind::Ed25519V4, 1);
@@ -849,6 +875,22 @@ pub fn check(ctx: &Ctx) {
         run_msg_read,
     );
 
+    // builder side: the file entry points onto a device that refuses every write
+    let mut fsc = Vec::new();
+    for cfg in cfgs.iter().filter(|c| c.compression == 0 && !c.text) {
+        for n in [0usize, 1, 100, 5000, 8192, 20_000, 100_000] {
+            let mut cfg = cfg.clone();
+            cfg.source = 0;
+            fsc.push(FullSinkCase { cfg, n });
+        }
+    }
+    ctx.run_space(
+        "builder_file_sinks_that_fail",
+        true,
+        "MessageBuilder::to_file / to_armored_file onto /dev/full (opens, every write fails) for the uncompressed binary configurations x payload lengths 0..100000 (output smaller and larger than the file buffer): the call must return an error",
+        fsc.into_par_iter(),
+        run_full_sink,
+    );
     // builder side
     let mut bc = Vec::new();
     let blens: Vec<usize> = if quick {
@@ -940,6 +982,7 @@ pub fn check(ctx: &Ctx) {
 pub fn replay(space: &str, case: &Value) -> Option<Outcome> {
     match space {
         "message_reader" => replay_as(case, run_msg_read),
+        "builder_file_sinks_that_fail" => replay_as(case, run_full_sink),
         "message_builder" => replay_as(case, run_build),
         "components" => replay_as(case, run_small),
         _ => None,
